@@ -396,6 +396,29 @@ pub fn core(rep: &Report, thorough: bool) {
             }
         }
     }
+    // Two connections served side by side by one thread, in every stage-wise interleaving: each must be judged
+    // exactly as when it is served alone (whatever one connection's login keeps anywhere but in itself - a
+    // token, a key, a verdict, a cookie - must not reach the other).
+    {
+        let sp = |intent: &str, enc: &str, verdict: &str, claim: &str| Spec { intent: intent.into(), enc: enc.into(), verdict: verdict.into(), routing: true, claim: claim.into(), transport: "plain".into() };
+        let mut menu: Vec<(Spec, Case)> = vec![];
+        for s in [
+            sp("login", "honest", "all-differ", "ascii"),
+            sp("login", "honest", "other-name", "unicode"),
+            sp("login-secret", "honest", "props-2", "nil-uuid"),
+            sp("transfer-cookie", "honest", "err", "ascii"),
+            sp("transfer-cookie-forged", "honest", "other-uuid", "unicode"),
+            sp("login", "wrong-token", "claim", "ascii"),
+            sp("login", "honest", "err", "unicode"),
+            sp("transfer-nocookie", "stale-token", "claim", "ascii"),
+        ] {
+            let c = build(&s, &stale);
+            menu.push((s, c));
+        }
+        let (runs, busy) = crate::sim::judge_in_company(rep, &menu, &|s, c, o| judge(s, c, o));
+        rep.require("pairs of connections served side by side in which both got past the handshake", busy, 1000);
+        rep.set("pairs_of_connections_side_by_side", json!(runs));
+    }
     let all = specs(thorough);
     let distinct: Mutex<HashSet<String>> = Mutex::new(HashSet::new());
     let admitted = AtomicU64::new(0);
